@@ -86,7 +86,7 @@ func (c *Ctx) Composition(o CompOpts) *Doc {
 			for _, v := range vars {
 				prim := Prims[0]
 				if o.TypedPathVars {
-					prim = rapid.SampledFrom(PathVarPrims).Draw(t, "pathvar_prim")
+					prim = c.maybeLayout(rapid.SampledFrom(PathVarPrims).Draw(t, "pathvar_prim"), "pathvar_prim")
 				}
 				ps = append(ps, &Parameter{Name: v, In: "path", Required: true, Schema: prim.Schema()})
 			}
@@ -263,7 +263,7 @@ func (c *Ctx) BodySchema(label string) *Schema {
 // admissible at the given matrix position (response-header or component-header).
 func (c *Ctx) ResponseHeaderSchema(pos string) *Schema {
 	t := c.T
-	p := c.prim("rh_prim")
+	p := c.paramPrim("rh_prim")
 	s := p.Schema()
 	c.Tag("rheader:" + p.Name)
 	if !c.Lean && rapid.IntRange(0, 3).Draw(t, "rh_ref") == 0 && c.AllowSchema(s, "component") {
@@ -272,7 +272,7 @@ func (c *Ctx) ResponseHeaderSchema(pos string) *Schema {
 			s = r
 		}
 	}
-	if rapid.IntRange(0, 2).Draw(t, "rh_array") == 0 {
+	if rapid.IntRange(0, 2).Draw(t, "rh_array") == 0 && p.Layout() != "time.RFC1123Z" {
 		a := &Schema{Type: "array", Items: s}
 		if c.AllowSchema(a, pos) {
 			c.Tag("rheader:array")
@@ -485,7 +485,7 @@ func (c *Ctx) RouterDoc(o RouterOpts) *Doc {
 		for _, v := range tp.Vars() {
 			prim := Prims[0]
 			if o.Typed {
-				prim = rapid.SampledFrom(PathVarPrims).Draw(t, "pathvar_prim")
+				prim = c.maybeLayout(rapid.SampledFrom(PathVarPrims).Draw(t, "pathvar_prim"), "pathvar_prim")
 			}
 			s := prim.Schema()
 			if o.Typed && rapid.IntRange(0, 4).Draw(t, "pathvar_ref") == 0 && c.AllowSchema(s, "component") {
